@@ -11,6 +11,7 @@ import EaselModel.Weights.BlosumPerm
 import EaselModel.Weights.Rounding
 import EaselModel.Weights.FindMin
 import EaselModel.Weights.FilterOrder
+import EaselModel.Weights.GSCPerm
 /-! # C16 — sequence weights, identity filtering and clustering follow their definitions
 
   Theorems about the `ℚ` instance of the executable model `EaselModel.Weights` (the `Float` instance of the same
@@ -21,12 +22,13 @@ import EaselModel.Weights.FilterOrder
   Coverage of the statement of C16 (properties.jsonl):
   * PB, BLOSUM, GSC weights ≥ 0 and Σ = N ............ `pb_nonneg` `pb_sum` `blosum_sum_nonneg` `gsc_sum_nonneg`
   * identical sequences ⇒ identical weights ........... `pb_identical_rows` `blosum_identical_rows`;
-      GSC: FALSE for the code, `gsc_identical_rows_fails_at` (known finding), no positive theorem
+      GSC: FALSE for the code, `gsc_identical_rows_fails_at` (known finding); `gsc_identical_rows_tie_free` when no UPGMA
+      pass ties
   * PB = per-column 1/(r·c) formula / residue count ... `pb_formula` + `pb_counts_digital` `pb_counts_text`
   * BLOSUM = one over cluster size (scaled N/#clusters)  `blosum_formula`
   * relisting permutes the weights .................... `pb_relisting_digital` `pb_relisting_text` `blosum_relisting`;
-      GSC with tie-free pairwise distances: FALSE for the code, `gsc_relisting_fails_at` (known finding); not proved
-      under the stronger hypothesis "no tie at any UPGMA step" (monitored only)
+      GSC with tie-free pairwise distances: FALSE for the code, `gsc_relisting_fails_at` (known finding); TRUE and proved
+      under the hypothesis that is actually needed, "no tie for the minimum in any UPGMA pass": `gsc_relisting_tie_free`
   * pairwise identity ................................. `pairId_spec` `pairId_symm` `pairId_self` `pairId_empty`
       `pairId_unaligned` `pairId_range` `pairIdMx_spec`
   * identity filtering: independent and maximal ....... `idFilter_independent_maximal` `idFilterText_spec`
@@ -371,5 +373,37 @@ theorem idFilterDigital_keeps_better_ranked (abc : Abc) (maxid : ℚ) (sortwgt :
   rcases filterGreedy_subset _ _ _ k hk with h' | h'
   · simp at h'
   · exact h'
+
+/-! ## GSC, the positive part: no tie for the minimum in any UPGMA pass (`TieFree`; `tieFreeB` is its executable form) -/
+
+/-- relisting the rows permutes the GSC weights accordingly whenever no pass of UPGMA has a tie for the minimum:
+    row x of the relisted alignment `p.map (rows[·])` gets the weight row p[x] had. (Distinct pairwise distances are not
+    enough — `gsc_relisting_fails_at` — because averaged distances can tie; this is the hypothesis that is.) -/
+theorem gsc_relisting_tie_free (m : Mode) (rows : List Row) (p : List Nat) (hp : p.Perm (List.range rows.length))
+    (htf : TieFree m rows) :
+    gsc (α := ℚ) m (p.map fun i => rows.getD i []) = p.map (fun i => (gsc (α := ℚ) m rows).getD i 0) :=
+  gsc_perm m rows p hp htf
+
+/-- identical rows ⇒ identical GSC weights whenever no pass of UPGMA has a tie for the minimum (identical rows do not
+    exclude that: their distance 0 can be the unique minimum of its pass) -/
+theorem gsc_identical_rows_tie_free (m : Mode) (rows : List Row) (htf : TieFree m rows) (i j : Nat)
+    (hi : i < rows.length) (hj : j < rows.length) (h : rows.getD i [] = rows.getD j []) :
+    (gsc (α := ℚ) m rows).getD i 0 = (gsc (α := ℚ) m rows).getD j 0 :=
+  gsc_eq_of_rows_eq m rows htf i j hi hj h
+
+/-- the hypothesis can be checked by computation -/
+theorem tieFree_checkable (m : Mode) (rows : List Row) (h : tieFreeB m rows = true) : TieFree m rows :=
+  tieFree_of_check m rows h
+
+/-- non-vacuity: AAAA, AAAC, ACCC (distances 1/4, 3/4, 1/2) and, with two identical rows, AAAA, AAAA, ACCC, CCCG -/
+example : TieFree Mode.text [[65, 65, 65, 65], [65, 65, 65, 67], [65, 67, 67, 67]] :=
+  tieFree_of_check _ _ (by decide +kernel)
+example : TieFree Mode.text [[65, 65, 65, 65], [65, 65, 65, 65], [65, 67, 67, 67], [67, 67, 67, 71]] :=
+  tieFree_of_check _ _ (by decide +kernel)
+/-- the two known-finding witnesses are outside the hypothesis -/
+example : tieFreeB Mode.text
+    [[67, 69, 68, 65, 65, 68, 69, 65, 68, 69, 65, 65], [69, 65, 67, 65, 68, 65, 68, 69, 68, 65, 69, 68],
+     [68, 65, 69, 65, 68, 68, 69, 65, 68, 69, 68, 68], [69, 65, 65, 68, 68, 68, 65, 65, 67, 69, 68, 68]] = false := by
+  decide +kernel
 
 end EaselModel.Props.C16
